@@ -298,6 +298,9 @@ pub fn run(ctx: &mut Ctx) {
     }
     let muts = ctx.budget(3_000_000, 40_000_000);
     for i in 0..muts {
+        if ctx.miri_full() {
+            break;
+        }
         let g = &groups[(i % 4) as usize];
         let base = ctx.rng.pick(g.0).clone();
         let t = gentext::mutate(&mut ctx.rng, &base, g.2);
@@ -315,6 +318,9 @@ pub fn run(ctx: &mut Ctx) {
     // 4. random UTF-8 and long inputs
     let rnd = ctx.budget(1_000_000, 12_000_000);
     for i in 0..rnd {
+        if ctx.miri_full() {
+            break;
+        }
         let g = &groups[(i % 4) as usize];
         let t = gentext::random_text(&mut ctx.rng, g.2, 12);
         check_text(ctx, &env, &t, ALL, 2);
